@@ -57,6 +57,18 @@ Theorem C04_trylock : forall fx m p, in_queue p (queue m) = false ->
 Proof. exact trylock. Qed.
 Print Assumptions C04_trylock.
 
+(* lock() returns at once iff the mutex is free or already held by the caller (recursive mutex; the plain-mutex re-lock is
+   outside the domain); otherwise the caller joins the END of the queue and nothing else changes *)
+Theorem C04_lock_outcome : forall fx m p, in_queue p (queue m) = false -> undefined_region m (Lock p) = false ->
+  let r := step fx m (Lock p) in
+  (snd r = Acquired <-> owner m = None \/ owner m = Some p) /\
+  (snd r = Blocked <-> exists o, owner m = Some o /\ o <> p) /\
+  (snd r = Acquired \/ snd r = Blocked) /\
+  (snd r = Acquired -> owner (fst r) = Some p /\ queue (fst r) = queue m) /\
+  (snd r = Blocked -> map a_issuer (queue (fst r)) = map a_issuer (queue m) ++ [p] /\ owner (fst r) = owner m /\ depth (fst r) = depth m).
+Proof. exact lock_outcome. Qed.
+Print Assumptions C04_lock_outcome.
+
 (* FIFO: the lockers that had to wait are served in the order of their requests (the served ones are a prefix of the
    blocked ones, the rest is the queue, in order) *)
 Theorem C04_fifo : forall fx rec ops,
